@@ -127,6 +127,8 @@ const DEPTH_MSG: &str = "C09-INPUT-DEPTH";
 static MAX_SOURCES: std::sync::atomic::AtomicUsize = std::sync::atomic::AtomicUsize::new(0);
 /// Titles of the recoverable errors that the last run recovered from (from the log), in order.
 static RECOVERED_TITLES: std::sync::Mutex<Vec<String>> = std::sync::Mutex::new(Vec::new());
+/// The log of the last run (the renderings of the errors it recovered from), colour stripped.
+static LAST_LOG: std::sync::Mutex<String> = std::sync::Mutex::new(String::new());
 
 #[derive(Default)]
 struct MemFs {
@@ -390,6 +392,15 @@ fn make_vm(proto: bool, budget: u64) -> vm::VM<H> {
             fs.files.insert(n.into(), c.to_string());
         }
     }
+    {
+        // files whose interesting line is line 2, 10, 100, 1000 (line numbers of different widths)
+        let mut fs = vm.state.fs.borrow_mut();
+        for n in [2usize, 10, 100, 1000] {
+            let pad = "%\n".repeat(n - 1);
+            fs.files.insert(format!("use{n}.tex").into(), format!("{pad}\\count1=\\x \\the\\relax \\y{{B}}\\undefinedinfile\n"));
+            fs.files.insert(format!("def{n}.tex").into(), format!("{pad}\\def\\x{{A}}\\def\\y#1{{\\count1=#1 }}\\toks1={{\\fi}}\\def\\z{{\\undefinedinmacro}}\n"));
+        }
+    }
     let mut t = tc::MockTerminalIn::default();
     for l in TERM_LINES {
         t.add_line(*l);
@@ -443,6 +454,7 @@ fn excerpts_of(e: &error::TracedTexError) -> Vec<Excerpt> {
 fn run_program(src: &str, proto: bool, budget: u64) -> Outcome {
     MAX_SOURCES.store(0, std::sync::atomic::Ordering::Relaxed);
     RECOVERED_TITLES.lock().unwrap().clear();
+    LAST_LOG.lock().unwrap().clear();
     let r = caught(|| {
         let mut vm = make_vm(proto, budget);
         let _ = vm.push_source("input.tex", src);
@@ -452,6 +464,7 @@ fn run_program(src: &str, proto: bool, budget: u64) -> Outcome {
         let titles: Vec<String> = log.lines().filter_map(|l| l.strip_prefix("Error: ")).map(|t| t.to_string()).collect();
         let n_recovered = titles.len();
         *RECOVERED_TITLES.lock().unwrap() = titles;
+        *LAST_LOG.lock().unwrap() = log;
         (r, n_recovered)
     });
     match r {
@@ -1343,9 +1356,77 @@ fn array_programs(rng: &mut Rng) -> Vec<Vec<String>> {
     out
 }
 
+// ------------------------------------------------------------------------------------------
+// Errors whose parts lie on different lines and in different files: the token that ends up in
+// the error (from a macro body, a token register, a file) and the command that runs when the
+// error occurs are placed on lines 1..1000, so that the blocks of a rendered error have line
+// numbers of different widths, in both directions.
+// ------------------------------------------------------------------------------------------
+
+/// (definition part, use part). In the first group the offending token comes from the
+/// definition and the running command from the use; in the second group it is the reverse.
+const LAYOUT_PAIRS: &[(&str, &str)] = &[
+    ("\\def\\x{A}", "\\count1=\\x "),
+    ("\\def\\x{pt A}", "\\dimen1=1.5\\x "),
+    ("\\def\\x{\\else}", "\\ifnum1<2 \\x a\\fi \\advance\\x"),
+    ("\\toks1={\\fi A}", "\\count1=\\the\\toks1 "),
+    ("\\def\\x{\\undefinedinmacro}", "\\count1=\\x "),
+    ("\\def\\x{\\relax}", "\\the\\x \\advance\\x by 1 "),
+    ("\\let\\x=\\undefinedtarget \\def\\w{\\x}", "\\advance\\w by 1 "),
+    ("\\def\\x{\u{e9}\u{4e16} z}", "\\catcode`a=\\x "),
+    ("\\def\\x{-}", "\\openin\\x1=a \\global\\x"),
+    ("\\def\\y#1{\\count1=#1 }", "\\y{B}"),
+    ("\\def\\y#1{\\dimen1=1#1 \\the#1}", "\\y{\u{e9}}"),
+    ("\\def\\y#1{\\ifnum#1<1 \\fi}", "\\y{Q}"),
+    ("\\def\\y#1#2{\\advance#1 by #2 }", "\\y\\count{x}"),
+    ("\\def\\y{\\global}", "\\y a"),
+    ("\\def\\y#1{\\input #1 }", "\\y{missing}"),
+];
+
+fn layout_programs(rng: &mut Rng, thorough: bool) -> Vec<Vec<String>> {
+    let mut out = vec![];
+    let line_choices: &[usize] = &[1, 2, 9, 10, 11, 99, 100, 101, 1000];
+    let filler = |from: usize, to: usize, rng: &mut Rng| -> String {
+        // lines from+1 ..= to-1 are comments, blank-free text or `\relax`
+        // (`\relax` lines cost lexer ticks of the step budget: only for short gaps)
+        let kind = if to.saturating_sub(from) > 150 { 0 } else { rng.below(3) };
+        (from..to).map(|_| match kind { 0 => "%\n", 1 => "\\relax\n", _ => "% \u{e9}\n" }).collect()
+    };
+    for (def, usep) in LAYOUT_PAIRS {
+        for (ai, &a) in line_choices.iter().enumerate() {
+            for &b in &line_choices[ai + 1..] {
+                // quick: every pair of widths, a sample of the rest
+                let widths_differ = a.to_string().len() != b.to_string().len();
+                if !(thorough || (widths_differ && rng.chance(1, 2)) || rng.chance(1, 8)) {
+                    continue;
+                }
+                // same file: definition on line a, use on line b
+                let pre = filler(1, a, rng);
+                let mid = filler(a, b, rng);
+                out.push(vec![pre, def.to_string(), "\n".to_string(), mid, usep.to_string(), " tail".to_string()]);
+            }
+        }
+        // two files: the definitions at line n of a file, the use at line m of the main file or
+        // of another file
+        for n in [2usize, 10, 100, 1000] {
+            for m in [1usize, 10, 100] {
+                if !(thorough || rng.chance(1, 3)) {
+                    continue;
+                }
+                let pre = filler(1, m, rng);
+                out.push(vec![pre.clone(), format!("\\input def{n} {usep}"), " tail".to_string()]);
+                out.push(vec![pre.clone(), format!("{def}\\input use{n} "), " tail".to_string()]);
+                out.push(vec![pre, format!("\\input def{n} \\input use{} ", [2usize, 10, 100, 1000][m.to_string().len() % 4])]);
+            }
+        }
+    }
+    out
+}
+
 struct C09 {
     driver_path: String,
     debug: bool,
+    gutter_cache: HashMap<usize, String>,
 }
 
 const MODES: &[&str] = &["e", "s", "n", "b"];
@@ -1358,7 +1439,15 @@ impl C09 {
     fn run_stream(&mut self, mode: &str, prog: &str, drv: &mut Driver, o: &mut CaseOutcome) {
         let src = format!("{}{}", mode_prefix(mode), prog);
         o.tag(format!("mode:{mode}"));
-        match run_program(&src, false, 6000) {
+        let outcome = run_program(&src, false, 6000);
+        if matches!(outcome, Outcome::Ok(..) | Outcome::Err { .. }) {
+            // the errors the run recovered from were rendered into the log: their gutters too
+            let log = LAST_LOG.lock().unwrap().clone();
+            if !log.is_empty() && log.len() < 20_000 {
+                self.check_gutters(&log, drv, o);
+            }
+        }
+        match outcome {
             Outcome::Budget => {
                 o.tag("outcome:budget (not counted)");
             }
@@ -1452,6 +1541,12 @@ impl C09 {
                 }
                 // excerpt arithmetic vs the Lean model / spec
                 let plain = rendered.as_ref().ok().map(|t| strip_ansi(t));
+                // the gutter of every block of the rendering against the Lean `gutter_total`:
+                // a block starts with `>>> origin:line:col`, then an empty `|` line, then the
+                // source line `line | ...`; the margin is sized from the block's own line number
+                if let Some(p) = &plain {
+                    self.check_gutters(p, drv, o);
+                }
                 // what the real rendering printed under the primary source line
                 let underline: Option<(usize, usize)> = plain.as_ref().and_then(|p| {
                     let lines: Vec<&str> = p.lines().collect();
@@ -1612,6 +1707,55 @@ impl C09 {
                 o.fail(Kind::ImplPanic, stream, sig_of_panic(&m), format!("{src}: {m}"));
             }
             Outcome::Budget | Outcome::Unbounded(_) => o.fail(Kind::ModelVsSpec, stream, "budget", src),
+        }
+    }
+
+    fn check_gutters(&mut self, plain: &str, drv: &mut Driver, o: &mut CaseOutcome) {
+        let lines: Vec<&str> = plain.lines().collect();
+        let mut blocks = 0;
+        let mut widths = std::collections::BTreeSet::new();
+        for (i, l) in lines.iter().enumerate() {
+            let t = l.trim_start_matches(' ');
+            if !t.starts_with(">>> ") {
+                continue;
+            }
+            // `>>> origin:line:col`
+            let mut it = t.rsplitn(3, ':');
+            let (Some(col), Some(line), Some(_)) = (it.next(), it.next(), it.next()) else { continue };
+            let (Ok(_), Ok(n)) = (col.parse::<usize>(), line.parse::<usize>()) else { continue };
+            let (Some(blank), Some(source)) = (lines.get(i + 1), lines.get(i + 2)) else { continue };
+            blocks += 1;
+            widths.insert(line.len());
+            let rep = match self.gutter_cache.get(&n) {
+                Some(r) => r.clone(),
+                None => {
+                    let r = drv.ask(&format!("gutter {n}"));
+                    self.gutter_cache.insert(n, r.clone());
+                    r
+                }
+            };
+            let pads: Vec<usize> = rep.split_ascii_whitespace().filter_map(|w| w.parse().ok()).collect();
+            if pads.len() != 3 {
+                o.fail(Kind::ModelVsSpec, "gutter", "gutter: model underflows", format!("gutter {n} -> {rep}"));
+                continue;
+            }
+            let lead = |s: &str| s.len() - s.trim_start_matches(' ').len();
+            let ok = lead(l) == pads[0] + 1
+                && lead(blank) == pads[1] + 1
+                && blank.trim_start_matches(' ').starts_with('|')
+                && lead(source) == pads[2]
+                && source.trim_start_matches(' ').starts_with(&format!("{n} | "));
+            if !ok {
+                o.fail(
+                    Kind::ImplVsModel,
+                    "gutter",
+                    "gutter: margin differs from a printer sized by the block's own line number",
+                    format!("block at line {n}: header {l:?}, blank {blank:?}, source {source:?}; model paddings {rep}"),
+                );
+            }
+        }
+        if blocks >= 2 {
+            o.tag(if widths.len() >= 2 { "gutter:blocks-with-different-widths" } else { "gutter:two-blocks" });
         }
     }
 
@@ -1785,7 +1929,7 @@ impl Property for C09 {
         "C09"
     }
     fn rule(&self) -> String {
-        "run: grammar-generated TeX programs over the full installed vocabulary (enumerated from texlang_stdlib::built_in_commands at run time, + \\par, \\newline), user macros, braces, boundary numbers/dimensions/indices/character codes, non-ASCII text, ^^ notation, token soup, every statement-prefix of a sample of programs, each in errorstop/scroll/nonstop/batch mode; plus undefined commands of every shape (control words/symbols with ASCII and 2/3/4-byte letters, names close to and far from primitives, empty and very long names, ASCII and non-ASCII active characters incl. combining marks, active space and end of line) in 34 contexts (bare, at end of input, after a group that defined them, after \\let to an undefined command, after \\the/\\advance/\\count/\\expandafter/\\noexpand/\\if.., in macro bodies, arguments and delimiters, as file names, ...) at line start / after multi-byte text / on later lines, in all four modes; plus a failing expansion (unmatched \\else/\\fi/\\or, \\input of a missing file, unterminated macro argument, undefined command, failing conditional, \\the of a non-variable, and \\expandafter/\\noexpand/\\the/\\input/\\ifnum at end of input) inserted after every piece of 66 statements cut at every look-ahead position of the scanners (signs, digits, decimal point, fraction digits, unit and keyword letters, =, register indices, conditional operands, \\the, \\expandafter, prefixes, file names), followed by more text and a final error or the end of input, in errorstop mode and one recovering mode in rotation (thorough: all four); plus \\newInt/\\newIntArray allocations (1-3 arrays of 0-7 elements, interleaved with single variables, in and out of groups, re-allocated names) with 16 kinds of access at indices -1, 0, len-1, len, len+1, len+7 of every array; plus extreme register states: \\count1, \\dimen0 and each component of \\skip0 (finite and fil/fill/filll) driven to -2^31, -2^31+1, 2^31-1, +-2^30, +-(2^30-1) by wrapping \\advance / \\multiply chains, then every one of ~130 arithmetic, scanning, comparison, index and code uses of that register, in all four modes; non-trivial = the run ended within the step budget (ok, error or panic). proto: every event sequence of length <= 4 plus random ones. chr/uint/ifcase: boundary values.".into()
+        "run: grammar-generated TeX programs over the full installed vocabulary (enumerated from texlang_stdlib::built_in_commands at run time, + \\par, \\newline), user macros, braces, boundary numbers/dimensions/indices/character codes, non-ASCII text, ^^ notation, token soup, every statement-prefix of a sample of programs, each in errorstop/scroll/nonstop/batch mode; plus undefined commands of every shape (control words/symbols with ASCII and 2/3/4-byte letters, names close to and far from primitives, empty and very long names, ASCII and non-ASCII active characters incl. combining marks, active space and end of line) in 34 contexts (bare, at end of input, after a group that defined them, after \\let to an undefined command, after \\the/\\advance/\\count/\\expandafter/\\noexpand/\\if.., in macro bodies, arguments and delimiters, as file names, ...) at line start / after multi-byte text / on later lines, in all four modes; plus a failing expansion (unmatched \\else/\\fi/\\or, \\input of a missing file, unterminated macro argument, undefined command, failing conditional, \\the of a non-variable, and \\expandafter/\\noexpand/\\the/\\input/\\ifnum at end of input) inserted after every piece of 66 statements cut at every look-ahead position of the scanners (signs, digits, decimal point, fraction digits, unit and keyword letters, =, register indices, conditional operands, \\the, \\expandafter, prefixes, file names), followed by more text and a final error or the end of input, in errorstop mode and one recovering mode in rotation (thorough: all four); plus \\newInt/\\newIntArray allocations (1-3 arrays of 0-7 elements, interleaved with single variables, in and out of groups, re-allocated names) with 16 kinds of access at indices -1, 0, len-1, len, len+1, len+7 of every array; plus multi-line / multi-file layouts (15 definition/use pairs whose offending token and running command lie on lines 1..1000 of the same file or of \\input files, both directions, so that the blocks of a rendered error have line numbers of different widths; the gutter of every rendered block is compared with the Lean model); plus extreme register states: \\count1, \\dimen0 and each component of \\skip0 (finite and fil/fill/filll) driven to -2^31, -2^31+1, 2^31-1, +-2^30, +-(2^30-1) by wrapping \\advance / \\multiply chains, then every one of ~130 arithmetic, scanning, comparison, index and code uses of that register, in all four modes; non-trivial = the run ended within the step budget (ok, error or panic). proto: every event sequence of length <= 4 plus random ones. chr/uint/ifcase: boundary values.".into()
     }
     fn builtin_corpus(&self) -> Vec<String> {
         let mut v = vec![];
@@ -1919,7 +2063,7 @@ impl Property for C09 {
             }
         }
         // --- programs
-        let n_prog = if ctx.thorough { 60_000 } else { 9_000 };
+        let n_prog = if ctx.thorough { 60_000 } else { 6_500 };
         let mut r = rng.fork();
         for i in 0..n_prog {
             let mut g = Gen { rng: &mut r, vocab: &vocab, macros: vec![] };
@@ -1961,6 +2105,16 @@ impl Property for C09 {
                     out.push(format!("run {mode0} {}", enc(&p)));
                     k = k.saturating_sub(step);
                 }
+            }
+        }
+        // --- error parts on lines and in files with line numbers of different widths
+        let mut r6 = rng.fork();
+        for (i, parts) in layout_programs(&mut r6, ctx.thorough).into_iter().enumerate() {
+            // the recovering modes render inside the run (the hook prints the error); errorstop
+            // renders the returned error
+            let modes: Vec<&str> = if ctx.thorough { MODES.to_vec() } else { vec![MODES[i % 4], MODES[(i + 1) % 4]] };
+            for m in modes {
+                out.push(format!("run {m} {}", enc_parts(&parts)));
             }
         }
         // --- allocated arrays: every access at and around both ends of every array
@@ -2358,7 +2512,7 @@ fn main() {
     let deep_child = std::env::args().any(|a| a.starts_with("deepchild"));
     if deep_child {
         // default main-thread stack on purpose
-        run(C09 { driver_path, debug: std::env::var("C09_DEBUG").is_ok() });
+        run(C09 { driver_path, debug: std::env::var("C09_DEBUG").is_ok(), gutter_cache: HashMap::new() });
         return;
     }
     {
@@ -2369,7 +2523,7 @@ fn main() {
     }
     let h = std::thread::Builder::new()
         .stack_size(1 << 30)
-        .spawn(move || run(C09 { driver_path, debug: std::env::var("C09_DEBUG").is_ok() }))
+        .spawn(move || run(C09 { driver_path, debug: std::env::var("C09_DEBUG").is_ok(), gutter_cache: HashMap::new() }))
         .unwrap();
     if h.join().is_err() {
         std::process::exit(101);
